@@ -338,11 +338,38 @@ def _return_abstractarray():
     return AbstractArray
 
 
+def _unpickle_array_annotation(dtype, array_type, dim_str, dtypes):
+    out = dtype[array_type, dim_str]
+    if out.dtypes is not dtypes and out.dtypes != dtypes:
+        # An annotation that was built by nesting, e.g. `Shaped[Float[Array, "a"], "b"]`:
+        # its dtypes are the intersection, which is narrower than those of `dtype`.
+        module = out.__module__
+        out = _MetaAbstractArray(
+            out.__name__,
+            (AbstractArray,),
+            dict(
+                dtype=out.dtype,
+                array_type=out.array_type,
+                dim_str=out.dim_str,
+                dtypes=dtypes,
+                dims=out.dims,
+                index_variadic=out.index_variadic,
+            ),
+        )
+        out.__module__ = module
+    return out
+
+
 def _pickle_array_annotation(x: type["AbstractArray"]):
     if x is AbstractArray:
         return _return_abstractarray, ()
     else:
-        return x.dtype.__getitem__, ((x.array_type, x.dim_str),)
+        return _unpickle_array_annotation, (
+            x.dtype,
+            x.array_type,
+            x.dim_str,
+            x.dtypes,
+        )
 
 
 copyreg.pickle(_MetaAbstractArray, _pickle_array_annotation)
